@@ -22,7 +22,8 @@ LEVEL = 'exploration'
 TECHNIQUE = 'bounded exhaustive enumeration of programs x span lengths x every period position x options on recording arrays (raw read/write index log) with before/after snapshots'
 RULE = ('programs: S1 index forms (variables/parameters/errors, RHS and LHS offsets) + all S4 systems over 6 (quick) / 12 (thorough) right-hand sides + 8 programs mixing a named period with lags/leads; span lengths '
         'LAGS+LEADS+1..+3; every t in [-len, len); options {plain, errors=ignore, offset -1/+1, min_iter>max_iter, pre-existing NaN}; solve() over every (start, end) pair. '
-        'non-trivial = solve that performs at least one evaluation pass or is rejected')
+        'non-trivial = solve that performs at least one evaluation pass or is rejected'
+        ' Linker-driven solves: 3 scripts x lengths 4,5 x 1,2 submodels x every t in [-len, len) x every offset in [-len-1, len+1]: an offset outside the span is refused with IndexError and nothing written, otherwise only period t changes.')
 ASSUMPTIONS = [
     'the recording arrays are installed in the instance storage the property anchors name (obj.__dict__["_" + name])',
     'an explicit request for an infeasible period may raise any exception class',
@@ -77,7 +78,7 @@ def progs(tier):
 def blocks(tier, seed):
     n = len(progs(tier))
     nb = 128
-    return [{'b': b, 'nb': nb} for b in range(nb)] + [{'solve': True, 'b': b, 'nb': 16} for b in range(16)]
+    return [{'b': b, 'nb': nb} for b in range(nb)] + [{'solve': True, 'b': b, 'nb': 16} for b in range(16)] + [{'linker': True}]
 
 
 OPTIONS = [
@@ -148,6 +149,8 @@ def run_case(case, p=None, Model=None):
     if optname in ('pre-nan', 'pre-inf') and 0 <= pos < n:
         m[endo[0]][pos] = np.nan if optname == 'pre-nan' else (np.inf if pos % 2 else -np.inf)   # any non-finite value, not only NaN
         kw['errors'] = case.get('errors', 'raise')
+        if case.get('cfe') is False:
+            kw['catch_first_error'] = False   # (the up-front refusal does not depend on how errors inside the passes are caught)
     if optname == 'pre-nan+offset' and 0 <= pos + 1 < n:
         m[endo[0]][pos + 1] = np.nan  # the non-finite value sits in the period the offset copies FROM
         kw['errors'] = 'raise'
@@ -272,6 +275,25 @@ def run_solve_case(case, p=None, Model=None):
 
 def run_block(block, tier, seed):
     acc = Acc()
+    if block.get('linker'):
+        for script in _LK_SCRIPTS:
+            for n in (4, 5):
+                for nsub in (1, 2):
+                    for t in range(-n, n):
+                        for offset in range(-n - 1, n + 2):
+                            for select in ((False, True) if nsub == 2 else (False,)):
+                                case = dict(kind='linker', script=script, n=n, t=t, offset=offset, nsub=nsub, select=select)
+                                acc.evaluations += 1
+                                acc.nontrivial += 1
+                                try:
+                                    with guard(10):
+                                        v = run_linker_case(case)
+                                except CaseTimeout:
+                                    acc.violation('timeout', case, 'termination', 'timeout')
+                                    continue
+                                for key, exp, obs, what in v:
+                                    acc.violation(key, case, exp, obs, what)
+        return acc
     plist = progs(tier)
     for i, p in enumerate(plist):
         if i % block['nb'] != block['b']:
@@ -303,11 +325,13 @@ def run_block(block, tier, seed):
         for n in range(L + 1, L + 4):
             for t in range(-n, n):
                 for optname, _ in OPTIONS:
-                    variants = [None] if optname not in ('pre-nan', 'pre-inf') else ['raise', 'ignore']
+                    variants = [None] if optname not in ('pre-nan', 'pre-inf') else ['raise', 'ignore', 'raise:cfe=False']
                     for ev in variants:
                         case = dict(kind='solve_t', script=p.script(), n=n, t=t, opt=optname)
                         if ev:
-                            case['errors'] = ev
+                            case['errors'] = ev.split(':')[0]
+                            if ev.endswith('cfe=False'):
+                                case['cfe'] = False
                         acc.evaluations += 1
                         try:
                             with guard(10):
@@ -324,7 +348,51 @@ def run_block(block, tier, seed):
     return acc
 
 
+_LK_SCRIPTS = ['Y = 0.5 * Y[-1] + X', 'Y = 0.25 * (Y[-1] + Y[1]) + X[-2]', 'Y = X + 1\nZ = Y[-1] * 0.5']
+
+
+def run_linker_case(case):
+    """The same containment for a period solved through a linker: every t in [-len, len), every offset; an offset that points outside
+    the span is refused with IndexError before anything is written, anything else writes only period t (linker and submodels)."""
+    from fsic.core import BaseLinker
+    Model = fsic.build_model(fsic.parse_model(case['script']))
+    n, t, offset, nsub = case['n'], case['t'], case['offset'], case['nsub']
+    subs = {}
+    for k in range(nsub):
+        m = Model(range(-2, n - 2))
+        for j, name in enumerate(m.names):
+            m[name] = [0.5 + 0.25 * j + 0.125 * q + k for q in range(n)]
+        subs['s%d' % k] = m
+    lk = BaseLinker(subs)
+    pos = t + n if t < 0 else t
+    objs = [('linker', lk)] + list(subs.items())
+    before = {tag: {name: o[name].copy() for name in o.index} for tag, o in objs}
+    kw = {}
+    if case.get('select'):
+        kw['submodels'] = ['s0']   # only the first submodel takes part: the others are not touched at all
+    res, cause, _ = refsolve.call_outcome(lk.solve_t, t, offset=offset, max_iter=3, failures='ignore', **kw)
+    out = []
+    touched = sorted((tag, name, int(q)) for tag, o in objs for name in o.index for q in range(n)
+                     if before[tag][name][q] != o[name][q] and not (before[tag][name][q] != before[tag][name][q] and o[name][q] != o[name][q]))
+    lags, leads = Model.LAGS, Model.LEADS
+    if offset and not (0 <= pos + offset < n):
+        if res != 'IndexError':
+            out.append(('linker:offset-out-of-span:not-rejected', 'IndexError', res, 'a linker solve with an offset that points outside the span must be refused'))
+        if touched:
+            out.append(('linker:offset-out-of-span:state-changed', [], touched[:4], 'a refused linker solve changed something'))
+    else:
+        stray = [x for x in touched if x[2] != pos]
+        if stray:
+            out.append(('linker:other-period-touched', [], stray[:4], 'a linker solve of one period changed another period'))
+        outside = [x for x in touched if case.get('select') and x[0] not in ('linker', 's0')]
+        if outside:
+            out.append(('linker:unselected-submodel-touched', [], outside[:4], 'a linker solve restricted to one submodel changed another submodel'))
+    return out
+
+
 def run_one(case):
+    if case['kind'] == 'linker':
+        return run_linker_case(case)
     if case['kind'] == 'solve':
         return run_solve_case(case)
     return run_case(case)[0]
